@@ -267,6 +267,19 @@ def check(model: Model, run: Run) -> None:
             continue
         params = set(init.params()[1:])
         locals_ok = {t.id for s in init.node.body if isinstance(s, ast.Assign) and isinstance(s.value, ast.Constant) for t in s.targets if isinstance(t, ast.Name)}
+        # a parameter declared as a value that cannot be changed (a str, an int, a bool, bytes, an enum member) is not an object two
+        # sessions could share state through, as long as the constructor does not re-bind it to something else
+        stored_ = {x.id for x in ast.walk(init.node) if isinstance(x, ast.Name) and isinstance(x.ctx, ast.Store)}
+        a_ = init.node.args
+        for p_ in a_.posonlyargs + a_.args + a_.kwonlyargs:
+            an_ = norm(p_.annotation) if p_.annotation is not None else ""
+            for w_ in ("t.Optional[", "typing.Optional[", "Optional["):
+                if an_.startswith(w_) and an_.endswith("]"):
+                    an_ = an_[len(w_):-1]
+            cq_ = model.resolve_name(c.module, an_) if an_ else None
+            if p_.arg in params and p_.arg not in stored_ and (an_ in ("str", "int", "bool", "bytes", "float") or (cq_ in model.classes and model.classes[cq_].is_enum)):
+                params.discard(p_.arg)
+                locals_ok.add(p_.arg)
         # locals that copy a module-level immutable literal are just as constant
         for s in init.node.body:
             if isinstance(s, ast.Assign) and isinstance(s.value, ast.Name) and s.value.id not in params and fresh(s.value, model, c.module, params, set())[0]:
@@ -789,4 +802,30 @@ def parse_results_fresh(model: Model, run: Run, module: str, rule: str, what: st
                 if not ok:
                     run.fail(Finding(rule, fq, f"@{dn} -> {ra or '?'}", f"{fi.name} is memoised with @{dn} and returns `{ra or 'an unannotated value'}`: "
                                      f"parsed values share one mutable object, so {what} stops holding once a caller edits a result", model.loc(module, fi.node)))
+    # a module-level list / dict / set handed out as (part of) a result is one object for every caller
+    shared = {}
+    for nm, sts in m.globals_.items():
+        vals = [getattr(s_, "value", None) for s_ in sts]
+        if len(vals) == 1 and vals[0] is not None and (isinstance(vals[0], (ast.List, ast.Dict, ast.Set, ast.ListComp, ast.DictComp, ast.SetComp)) or
+                                                        (isinstance(vals[0], ast.Call) and norm(vals[0].func) in ("list", "dict", "set", "bytearray", "collections.OrderedDict", "collections.defaultdict"))):
+            shared[nm] = sts[0]
+    for fq, fi in sorted(model.functions.items()):
+        if fi.module != module or isinstance(fi.node, ast.Lambda) or not shared:
+            continue
+        stored_ = {x.id for x in ast.walk(fi.node) if isinstance(x, ast.Name) and isinstance(x.ctx, ast.Store)} | set(fi.params())
+        for r_ in walk_no_nested(fi.node):
+            if not (isinstance(r_, ast.Return) and r_.value is not None):
+                continue
+            outs = [r_.value] + ([r_.value.body, r_.value.orelse] if isinstance(r_.value, ast.IfExp) else []) + \
+                   (list(r_.value.elts) if isinstance(r_.value, ast.Tuple) else []) + \
+                   ([k.value for k in r_.value.keywords] + list(r_.value.args) if isinstance(r_.value, ast.Call) else [])
+            for o in outs:
+                if isinstance(o, ast.BoolOp):
+                    outs.extend(o.values)
+            for o in outs:
+                if isinstance(o, ast.Name) and o.id in shared and o.id not in stored_:
+                    n += 1
+                    run.ob(rule, False, {"function": fq, "returns": o.id})
+                    run.fail(Finding(rule, fq, f"return {o.id}", f"{fq.split('sansldap.')[-1]} hands out the module-level `{o.id}` ({norm(shared[o.id])[:40]}): every result that takes this path holds "
+                                     f"the same object, so a caller that edits one result edits them all and {what} stops holding for the next parse", model.loc(module, r_)))
     run.ob(rule, True, {"module": module, "shared_state_constructs": n})
